@@ -77,7 +77,15 @@ def gen(rng, tier):
             r, s_ = rng.randrange(1, NN), rng.randrange(1, NN)
             for pre in ("0x", ""):
                 for v in (27, 28):
-                    cases.append(Case("cli.hash_tx %s %s" % (hx(j), hx(pre + "%064x%064x%02x" % (r, s_, v))), tags=("interop", "kind:" + kind + ("-unprotected" if chain == "absent" else "")), runner="cli", meta={}))
+                    cases.append(Case("cli.hash_tx %s %s" % (hx(j), hx(pre + "%064x%064x%02x" % (r, s_, v))), tags=("interop", "kind:" + kind + ("-unprotected" if chain == "absent" else "")), runner="cli", meta={"sig_style": rng.choice(["eq", "sep", "short"])}))
+    # ... and texts that denote no signature are refused by the command too (the empty text included: an option that is given
+    # is a signature, not "none")
+    jj, _e = txgen.rand_tx(rng, kind="legacy", chain=1)
+    okv = "%064x%064x1b" % (rng.randrange(1, NN), rng.randrange(1, NN))
+    for bad in ["", " ", "0x", "0X", "0", "00", "x", "none", "null", "-", okv[:-1], okv[:-2], okv + "0", okv + "00", "0x" + okv[:-2], "0x0x" + okv, "0X" + okv, okv[:128] + "1a", okv[:128] + "1d",
+                okv[:128] + "00", okv[:128] + "01", "0" * 128 + "1b", "0" * 64 + okv[64:], okv[:64] + "0" * 64 + "1b", "f" * 128 + "1b", okv.upper().replace("1B", "1b") + " ", " " + okv, okv + "\n", "é" * 65]:
+        for pre in ("",):
+            cases.append(Case("cli.hash_tx %s %s" % (hx(jj), hx(bad)), tags=("interop", "malformed-text"), runner="cli", meta={"sig_style": rng.choice(["eq", "sep", "short"])}))
     from vlib import routes
     cases += routes.add_routes(cases, rng, 80, tier)
     return cases
